@@ -6,7 +6,7 @@ C08 - bit-field keys are collision-free.  Property theorems about the model
 `assign_fields` (successful or raising half-way) on a `BitField(L)`, with *arbitrary*
 instance values at every step (more general than the instances the code can create).
 -/
-import RigModel.Lemmas.C08Key
+import RigModel.Lemmas.C08Complete
 set_option linter.unusedSimpArgs false
 set_option linter.unusedVariables false
 
@@ -183,6 +183,281 @@ theorem orthogonal {L : Nat} {st : State} (h : Reachable L st) {fv fv' : Reqs} {
     k &&& m' ≠ k' &&& m ∧ ¬ Matches k k' m' ∧ ¬ Matches k' k m :=
   orthogonal_lemma (reachable_inv h).1.disjoint hfit hfit' hk hm hk' hm' he he' hx hx' hne
 
+/-! ### the second invariant: structure of the tree and tag closure -/
+
+theorem inv2_init (L : Nat) : Inv2 ⟨L, []⟩ :=
+  ⟨by intro pi hpi; simp [shape] at hpi, by intro e he; simp at he⟩
+
+theorem reachable_inv2 {L : Nat} {st : State} (h : Reachable L st) : Inv2 st := by
+  induction h with
+  | init => exact inv2_init L
+  | add hr h ih => exact addField_inv2 (reachable_inv hr).1 ih h
+  | call _ h ih => exact call_inv2 ih h
+  | assign _ ih => exact assignFieldsP_inv2 ih
+
+/-- **tree_structure.** Over every history: every child key of the tree is a non-empty tuple of (identifier, value)
+pairs whose identifiers are fields of the parent node (so inner nodes are never empty and a field's requirements
+name fields that are present with it). -/
+theorem tree_structure {L : Nat} {st : State} (h : Reachable L st) : Struct st.entries :=
+  (reachable_inv2 h).struct
+
+/-- **tag_closed.** Over every history: every field named in the requirements of a tagged field (and present with
+it) carries the tag - `get_mask(tag=t)` / `get_value(tag=t)` always include the fields a tagged field depends on. -/
+theorem tag_closed {L : Nat} {st : State} (h : Reachable L st) : SpecTagClosed st.entries :=
+  (reachable_inv2 h).tagClosed
+
+/-- the same in terms of `get_field`: for a present field `e` with tag `t`, every identifier of `e`'s requirements
+resolves (in the same instance) to a field carrying `t` -/
+theorem tag_closed_getField {L : Nat} {st : State} (h : Reachable L st) {fv : Reqs} {e : Entry}
+    (he : e ∈ enabledFields st.entries fv) {t : String} (ht : t ∈ e.field.tags) {i : Ident} {v : Nat}
+    (hiv : (i, v) ∈ e.reqs) : ∃ p, getField st.entries i fv = some p ∧ t ∈ p.field.tags := by
+  have hi := (reachable_inv h).1
+  have hi2 := reachable_inv2 h
+  obtain ⟨he1, he2⟩ := List.mem_filter.mp he
+  obtain ⟨y, hy, hyi, hye⟩ := parent_exists hi2.struct hi.selfc he1 hiv
+  have hfv : ∀ iv ∈ e.reqs, fv.lookup iv.1 = some iv.2 := (enabled_iff fv e).mp he2
+  have hyfv : y.enabled fv = true := by
+    rw [enabled_iff]; intro jw hjw
+    exact hfv jw (lookup_mem ((enabled_iff _ _).mp hye jw hjw))
+  cases hg : getField st.entries i fv with
+  | none =>
+    unfold getField at hg
+    rw [List.find?_eq_none] at hg
+    have := hg y hy
+    simp [hyi, hyfv] at this
+  | some p =>
+    obtain ⟨h1, h2, h3⟩ := getField_some hg
+    have := eq_of_enabled_same_ident hi.unique h1 hy (h2.trans hyi.symm) h3 hyfv
+    subst this
+    exact ⟨p, rfl, hi2.tagClosed e he1 p hy ⟨v, hyi ▸ hiv⟩ hye t ht⟩
+
+/-! ### after a successful `assign_fields` every field has a position and a length -/
+
+/-- **all_fixed_after_assign.** -/
+theorem all_fixed_after_assign {L : Nat} {st st' : State} (h : Reachable L st)
+    (ha : assignFields st = .ok st') : AllFixed st'.entries :=
+  allFixed_of_assign (reachable_inv h).1 (reachable_inv2 h).struct ha
+
+/-- hence every getter of every instance whose present fields all have values succeeds -/
+theorem getMask_ok_after_assign {L : Nat} {st st' : State} (h : Reachable L st)
+    (ha : assignFields st = .ok st') (fv : Reqs) : ∃ m, getMask st'.entries fv none none = .ok m := by
+  have hf := all_fixed_after_assign h ha
+  unfold getMask selectFields
+  simp only
+  split
+  · rename_i hany
+    simp only [List.any_eq_true, Bool.not_eq_true'] at hany
+    obtain ⟨e, he, hfalse⟩ := hany
+    have := hf e (List.mem_filter.mp he).1
+    rw [this] at hfalse; exact absurd hfalse (by simp)
+  · exact ⟨_, rfl⟩
+
+/-! ### histories with their instances
+
+`ReachableI L st insts`: `st` is the tree and `insts` the `field_values` dicts of all `BitField` instances created
+so far (the root instance `{}` first), exactly as the code creates them: `__call__` on an existing instance
+appends one.  `add_field` is allowed with arbitrary values (more general than the code). -/
+
+inductive ReachableI (L : Nat) : State → List Reqs → Prop
+  | init : ReachableI L ⟨L, []⟩ [[]]
+  | add {st st' insts fv ident length startAt tags} :
+      ReachableI L st insts → addField st fv ident length startAt tags = .ok st' → ReachableI L st' insts
+  | call {st st' insts fv fv' kw} : ReachableI L st insts → fv ∈ insts → call st fv kw = .ok (st', fv') →
+      ReachableI L st' (insts ++ [fv'])
+  | assign {st insts} : ReachableI L st insts → ReachableI L (assignFieldsP st).1 insts
+
+theorem reachableI_reachable {L : Nat} {st : State} {insts : List Reqs} (h : ReachableI L st insts) :
+    Reachable L st := by
+  induction h with
+  | init => exact Reachable.init
+  | add _ h ih => exact Reachable.add ih h
+  | call _ _ h ih => exact Reachable.call ih h
+  | assign _ ih => exact Reachable.assign ih
+
+/-- **instance invariant**: every value of every instance names a field present in that instance and is at most
+that field's `max_value` -/
+theorem reachableI_instOK {L : Nat} {st : State} {insts : List Reqs} (h : ReachableI L st insts) :
+    ∀ fv ∈ insts, InstOK st.entries fv := by
+  induction h with
+  | init => intro fv hfv; simp at hfv; subst hfv; intro iv hiv; simp at hiv
+  | add _ h ih => exact fun fv hfv => addField_instOK h (ih fv hfv)
+  | call hr _ h ih =>
+    obtain ⟨hnew, hold⟩ := call_instOK (reachable_inv (reachableI_reachable hr)).1 h
+    intro fv hfv
+    rcases List.mem_append.mp hfv with hfv | hfv
+    · exact hold fv (ih fv hfv)
+    · simp at hfv; subst hfv; exact hnew
+  | assign _ ih => exact fun fv hfv => assignFieldsP_instOK (ih fv hfv)
+
+/-- **values_fit.** Over every history, every value of every instance fits the length of the field holding it
+(whenever that length is known): the `ValuesFit` hypothesis of `readback` / `orthogonal` holds for every instance
+the code can create. -/
+theorem values_fit {L : Nat} {st : State} {insts : List Reqs} (h : ReachableI L st insts) {fv : Reqs}
+    (hfv : fv ∈ insts) : ValuesFit st.entries fv :=
+  valuesFit_of_instOK (reachable_inv (reachableI_reachable h)).1 (reachableI_instOK h fv hfv)
+
+/-- the decidable forms evaluated by the oracle on the implementation's instances are the predicates above -/
+theorem instOKB_iff (es : List Entry) (fv : Reqs) : instOKB es fv = true ↔ InstOK es fv := by
+  simp only [instOKB, InstOK, ValOK, List.all_eq_true, List.any_eq_true, Bool.and_eq_true, beq_iff_eq,
+    decide_eq_true_eq, and_assoc]
+
+theorem valuesFitB_iff (es : List Entry) (fv : Reqs) : valuesFitB es fv = true ↔ ValuesFit es fv := by
+  simp only [valuesFitB, ValuesFit, List.all_eq_true]
+  constructor
+  · intro h e he x l hx hl
+    have := h e he
+    simpa [hx, hl] using this
+  · intro h e he
+    cases hx : fv.lookup e.ident <;> cases hl : e.field.length <;> simp
+    exact h e he _ _ hx hl
+
+/-- **readback_instance.** `readback` for every instance of every history, without side condition. -/
+theorem readback_instance {L : Nat} {st : State} {insts : List Reqs} (h : ReachableI L st insts) {fv : Reqs}
+    (hfv : fv ∈ insts) {key : Nat} (hk : getValue st.entries fv none none = .ok key) {e : Entry}
+    (he : e ∈ enabledFields st.entries fv) {x s l : Nat} (hx : fv.lookup e.ident = some x)
+    (hloc : getLocationAndLength st.entries fv e.ident = .ok (s, l)) : ReadBack key s l x :=
+  readback (reachableI_reachable h) (values_fit h hfv) hk he hx hloc
+
+/-- **instances_differ_on_common.** Two instances of one history whose dicts differ (as mappings) differ on a
+field that is present in both.  (For arbitrary dicts this needs "every key names a present field":
+`{zz: 1}` and `{}` differ on no field.) -/
+theorem instances_differ_on_common {L : Nat} {st : State} {insts : List Reqs} (h : ReachableI L st insts)
+    {fv fv' : Reqs} (hfv : fv ∈ insts) (hfv' : fv' ∈ insts) (hne : ∃ i, fv.lookup i ≠ fv'.lookup i) :
+    ∃ e, e ∈ enabledFields st.entries fv ∧ e ∈ enabledFields st.entries fv' ∧
+      fv.lookup e.ident ≠ fv'.lookup e.ident := by
+  have hi := reachableI_instOK h
+  obtain ⟨e, he, h1, h2, h3⟩ := differ_on_common (reachable_inv2 (reachableI_reachable h)).struct
+    (fun iv hiv => by obtain ⟨e, he, a, b, _⟩ := hi fv hfv iv hiv; exact ⟨e, he, a, b⟩)
+    (fun iv hiv => by obtain ⟨e, he, a, b, _⟩ := hi fv' hfv' iv hiv; exact ⟨e, he, a, b⟩) hne
+  exact ⟨e, List.mem_filter.mpr ⟨he, h1⟩, List.mem_filter.mpr ⟨he, h2⟩, h3⟩
+
+/-- **orthogonal_instances.** Any two *different* complete value assignments (instances of one history for which
+`get_value()` succeeds) produce key/mask pairs that do not match each other - no side condition. -/
+theorem orthogonal_instances {L : Nat} {st : State} {insts : List Reqs} (h : ReachableI L st insts)
+    {fv fv' : Reqs} (hfv : fv ∈ insts) (hfv' : fv' ∈ insts) {k m k' m' : Nat}
+    (hk : getValue st.entries fv none none = .ok k) (hm : getMask st.entries fv none none = .ok m)
+    (hk' : getValue st.entries fv' none none = .ok k') (hm' : getMask st.entries fv' none none = .ok m')
+    (hne : ∃ i, fv.lookup i ≠ fv'.lookup i) :
+    k &&& m' ≠ k' &&& m ∧ ¬ Matches k k' m' ∧ ¬ Matches k' k m :=
+  orthogonal_complete_lemma (reachable_inv (reachableI_reachable h)).1
+    (reachable_inv2 (reachableI_reachable h)).struct (reachableI_instOK h fv hfv) (reachableI_instOK h fv' hfv')
+    hk hm hk' hm' hne
+
+/-! ### completeness for nested scopes
+
+`SCAN_SLACK = 1` is the repaired scan bound `range(0, self.length - length + 1)` of `_assign_field`; the constant is
+regenerated from the source on every run.  With the unrepaired bound (0) the statement is false (`BitField(8)`,
+one 8-bit field).  Without `Nested` it is false as well (known finding complete-floating-cross-scope). -/
+
+/-- **complete_floating_chains.** After any history that positioned nothing explicitly, if scopes are nested
+(fields that can be present together lie on one root-to-leaf chain of nodes) and along every such chain the widths
+(given length, else the length `assign_fields` will choose from `max_value`) sum to at most the bit-field length,
+`assign_fields` succeeds. -/
+theorem complete_floating_chains (hs : SCAN_SLACK = 1) {L : Nat} {st : State} (h : Reachable L st)
+    (hF : ∀ e ∈ st.entries, e.field.startAt = none) (hn : Nested st.entries)
+    (hchain : ∀ e ∈ st.entries, ((st.entries.filter fun y => y.path.isPrefixOf e.path).map (·.width)).sum ≤ L) :
+    ∃ st', assignFields st = .ok st' := by
+  obtain ⟨hinv, hlen⟩ := reachable_inv h
+  have hnone : (assignFieldsP st).2 = none := by
+    refine complete_floating_lemma hs hinv (reachable_inv2 h).struct hF hn ?_
+    intro x hx
+    simp only [skel, List.mem_map] at hx
+    obtain ⟨e, he, rfl⟩ := hx
+    have := hchain e he
+    rw [hlen]
+    refine Nat.le_trans (Nat.le_of_eq ?_) this
+    simp only [segSum, skel, List.filter_map, List.map_map]
+    rfl
+  unfold assignFields
+  generalize assignFieldsP st = r at hnone
+  obtain ⟨st', oe⟩ := r
+  simp only at hnone
+  subst hnone
+  exact ⟨st', rfl⟩
+
+theorem compatibleB_iff (r r' : Reqs) : compatibleB r r' = true ↔ compatible r r' := by
+  simp only [compatibleB, compatible, List.all_eq_true, Bool.or_eq_true, Bool.not_eq_true', beq_eq_false_iff_ne,
+    beq_iff_eq, Prod.forall]
+  constructor
+  · intro h i v v' hv hv'
+    rcases h i v hv i v' hv' with h | h
+    · exact absurd rfl h
+    · exact h
+  · intro h i v hv j v' hv'
+    by_cases hij : i = j
+    · subst hij; exact Or.inr (h i v v' hv hv')
+    · exact Or.inl hij
+
+theorem pairwiseB_iff (r : Entry → Entry → Bool) (es : List Entry) :
+    pairwiseB r es = true ↔ es.Pairwise fun a b => r a b = true := by
+  induction es with
+  | nil => simp [pairwiseB]
+  | cons e es ih => simp [pairwiseB, ih, List.all_eq_true]
+
+theorem nested_of_nestedB {es : List Entry} (h : nestedB es = true) : Nested es := by
+  unfold nestedB at h
+  rw [pairwiseB_iff] at h
+  intro e he e' he' hc
+  have key : ∀ a b : Entry, compatible a.reqs b.reqs →
+      (!compatibleB a.reqs b.reqs || a.path.isPrefixOf b.path || b.path.isPrefixOf a.path) = true →
+      a.path <+: b.path ∨ b.path <+: a.path := by
+    intro a b hab hr
+    have : compatibleB a.reqs b.reqs = true := (compatibleB_iff _ _).mpr hab
+    simp only [this, Bool.not_true, Bool.false_or, Bool.or_eq_true, isPrefixOf_iff] at hr
+    exact hr
+  rcases pairwise_mem h he he' with rfl | h1 | h1
+  · exact Or.inl (List.prefix_refl _)
+  · exact key e e' hc h1
+  · exact (key e' e (compatible_symm hc) h1).symm
+
+theorem filter_mem_sublists (p : Entry → Bool) (es : List Entry) : es.filter p ∈ sublists es := by
+  induction es with
+  | nil => simp [sublists]
+  | cons e es ih =>
+    simp only [sublists, List.filter_cons, List.mem_append, List.mem_map]
+    split
+    · exact Or.inr ⟨_, ih, rfl⟩
+    · exact Or.inl ih
+
+theorem pairwiseB_of_forall {r : Entry → Entry → Bool} {l : List Entry} (h : ∀ a ∈ l, ∀ b ∈ l, r a b = true) :
+    pairwiseB r l = true := by
+  induction l with
+  | nil => rfl
+  | cons e es ih =>
+    simp only [pairwiseB, Bool.and_eq_true, List.all_eq_true]
+    exact ⟨fun b hb => h e List.mem_cons_self b (List.mem_cons_of_mem _ hb),
+      ih (fun a ha b hb => h a (List.mem_cons_of_mem _ ha) b (List.mem_cons_of_mem _ hb))⟩
+
+/-- **complete_floating.** The completeness clause in the form the oracle evaluates (`floatingFitsB`: nothing is
+positioned and the widths of every set of fields that can be present together sum to at most the length) for nested
+scopes (`nestedB`): `assign_fields` succeeds. -/
+theorem complete_floating (hs : SCAN_SLACK = 1) {L : Nat} {st : State} (h : Reachable L st)
+    (hfit : floatingFitsB L st.entries = true) (hn : nestedB st.entries = true) :
+    ∃ st', assignFields st = .ok st' := by
+  have hinv := (reachable_inv h).1
+  simp only [floatingFitsB, Bool.and_eq_true, List.all_eq_true, Option.isNone_iff_eq_none, Bool.or_eq_true,
+    Bool.not_eq_true', decide_eq_true_eq] at hfit
+  obtain ⟨hF, hsub⟩ := hfit
+  refine complete_floating_chains hs h hF (nested_of_nestedB hn) ?_
+  intro e he
+  rcases hsub _ (filter_mem_sublists (fun y => y.path.isPrefixOf e.path) st.entries) with hbad | hgood
+  · exfalso
+    have : pairwiseB (fun a b => compatibleB a.reqs b.reqs)
+        (st.entries.filter fun y => y.path.isPrefixOf e.path) = true := by
+      refine pairwiseB_of_forall ?_
+      intro a ha b hb
+      rw [compatibleB_iff]
+      simp only [List.mem_filter, isPrefixOf_iff] at ha hb
+      have sub : ∀ y : Entry, y.path <+: e.path → ∀ iv ∈ y.reqs, iv ∈ e.reqs := by
+        intro y hy iv hiv
+        simp only [Entry.reqs, List.mem_flatten] at hiv ⊢
+        obtain ⟨k, hk, hivk⟩ := hiv
+        exact ⟨k, hy.subset hk, hivk⟩
+      intro i v v' hv hv'
+      exact hinv.selfc e he i v v' (sub a ha.2 _ hv) (sub b hb.2 _ hv')
+    rw [this] at hbad; cases hbad
+  · exact hgood
+
 /-! non-vacuity: a reachable state with two scopes, after assignment -/
 example : ∃ st, Reachable 8 st ∧ st.entries.length = 1 ∧ allFixedB st.entries = true := by
   refine ⟨_, Reachable.assign (Reachable.add (fv := []) (ident := "a") (length := some 3) (startAt := none)
@@ -204,5 +479,39 @@ example : ∃ st fv, Reachable 8 st ∧ getValue st.entries fv none none = .ok 2
   rcases this with rfl | rfl
   · simp [List.lookup] at hx hl; subst hx hl; decide
   · simp [List.lookup] at hx hl; subst hx hl; decide
+
+/-- non-vacuity of `tag_closed` / `tree_structure`: a tagged field `b` in the scope a=0 passes its tag to `a` -/
+example : ∃ st, Reachable 8 st ∧
+    (st.entries.map fun e => (e.ident, e.path, e.field.tags)) = [("a", [], ["t"]), ("b", [[("a", 0)]], ["t"])] := by
+  refine ⟨_, Reachable.add (fv := [("a", 0)]) (ident := "b") (length := none) (startAt := none) (tags := ["t"])
+    (Reachable.add (fv := []) (ident := "a") (length := none) (startAt := none) (tags := []) Reachable.init rfl) rfl, ?_⟩
+  decide
+
+/-- non-vacuity of the instance theorems: two different complete instances (a=1 with b=2 in its scope, and a=0) of
+one history, both with keys -/
+example : ∃ st insts fv fv', ReachableI 8 st insts ∧ fv ∈ insts ∧ fv' ∈ insts ∧
+    getValue st.entries fv none none = .ok 6 ∧ getValue st.entries fv' none none = .ok 0 ∧
+    getMask st.entries fv none none = .ok 7 ∧ getMask st.entries fv' none none = .ok 4 ∧
+    (∃ i, fv.lookup i ≠ fv'.lookup i) := by
+  refine ⟨_, _, [("b", 2), ("a", 1)], [("a", 0)],
+    ReachableI.call (fv := []) (kw := [("a", 0)])
+      (ReachableI.assign
+        (ReachableI.call (fv := [("a", 1)]) (kw := [("b", 2)])
+          (ReachableI.add (fv := [("a", 1)]) (ident := "b") (length := some 2) (startAt := none) (tags := [])
+            (ReachableI.call (fv := []) (kw := [("a", 1)])
+              (ReachableI.add (fv := []) (ident := "a") (length := some 1) (startAt := none) (tags := [])
+                ReachableI.init rfl)
+              (by simp) rfl) rfl)
+          (by simp) rfl))
+      (by simp) rfl, by simp, by simp, by rfl, by rfl, by rfl, by rfl, ⟨"a", by decide⟩⟩
+
+/-- non-vacuity of the completeness theorems: a 2-bit field `a` with a 3-bit field `b` in scope a=1 and a 1-bit field
+`c` in scope a=0, nothing positioned, nested, in a 5-bit bit field (a 4-bit one does not fit) -/
+example : ∃ st, Reachable 5 st ∧ st.entries.length = 3 ∧ floatingFitsB 5 st.entries = true ∧
+    nestedB st.entries = true ∧ floatingFitsB 4 st.entries = false := by
+  refine ⟨_, Reachable.add (fv := [("a", 0)]) (ident := "c") (length := some 1) (startAt := none) (tags := [])
+    (Reachable.add (fv := [("a", 1)]) (ident := "b") (length := some 3) (startAt := none) (tags := [])
+      (Reachable.add (fv := []) (ident := "a") (length := some 2) (startAt := none) (tags := [])
+        Reachable.init rfl) rfl) rfl, ?_, ?_, ?_, ?_⟩ <;> decide
 
 end Rig.C08
